@@ -32,7 +32,7 @@ def main(argv):
     out = {"dir": d}
     try:
         shutil.copytree("/repo/src", os.path.join(tmp, "src"))
-        r = subprocess.run(["patch", "-p1", "-s", "-i", os.path.join(d, "patch.diff")], cwd=tmp, capture_output=True, text=True)
+        r = subprocess.run(["patch", "-p1", "-s", "-F0", "-i", os.path.join(d, "patch.diff")], cwd=tmp, capture_output=True, text=True)
         out["patch_applies"] = r.returncode == 0
         if r.returncode != 0:
             out["patch_error"] = (r.stdout + r.stderr)[-400:]
